@@ -388,7 +388,12 @@ def derivVerdict (o : Obj) (impl : List String) (var : String) (order : Nat) : S
       let t := o.tab
       -- the rescaled recursions need a stationary equilibrium vector (see `stationary`); the log-sum ones
       -- (not modelled, judged on the implementation only) divide by every emission probability
-      let applicable := match o.core with | .resc _ => stationary t | .log _ => t.positive | .low _ => false
+      -- double range of the log-sum recursions: they divide by every emission probability (squared at order 2)
+      let eLo : Float := if order == 1 then 1e-140 else 1e-95
+      let applicable := match o.core with
+        | .resc _ => stationary t
+        | .log _ => t.positive && t.E.all (· ≥ eLo)
+        | .low _ => false
       if o.stale || !t.nonneg || !applicable || !validBreaks t.T o.bps || !rangeOk t o.bps then "-" else
       if !var.startsWith t.pre then "-" else
       let var := (var.drop t.pre.length).toString
@@ -420,7 +425,10 @@ def derivSiteVerdict (o : Obj) (impl : List String) (site : Nat) (second : Bool)
       let (var, var2) := match o.core with | .resc r => (r.dVar, r.d2Var) | .log g => (g.dVar, g.d2Var) | .low _ => ("", "")
       -- the second-order accessor of the rescaled class mixes the arrays of the two variables when they differ
       if second && var != var2 then "-" else
-      let applicable := match o.core with | .resc _ => stationary t | .log _ => t.positive | .low _ => false
+      let applicable := match o.core with
+        | .resc _ => stationary t
+        | .log _ => t.positive && t.E.all (· ≥ 1e-95)
+        | .low _ => false
       if !t.nonneg || !applicable || !validBreaks t.T o.bps || !rangeOkAt 1e-95 t o.bps then "-" else
       if !var.startsWith t.pre then "-" else
       let var := (var.drop t.pre.length).toString
@@ -534,6 +542,28 @@ def TM.setParam (tm : TM) (name : String) (v : Float) : Except String TM :=
       match r.2 with
       | none => .ok (.full r.1)
       | some e => .error e.show
+
+/-- the update of a built-in model held by a likelihood object, `setParameterValue(name, v)` on the likelihood:
+`Parameter::setValue` on the likelihood's own copy of the parameter (nothing unless `|v - old| > 0`, then the
+constraint), then `fireParameterChanged` → `matchParametersValues` on the model, which assigns and notifies the
+model only when the value differs: an unchanged value leaves the model as it is (its equilibrium vector is not
+recomputed) -/
+def TM.matchParam (tm : TM) (name : String) (v : Float) : Except String TM :=
+  match tm with
+  | .auto m =>
+    match parseLambda name with
+    | none => .error "exc:notfound"
+    | some i =>
+      if i ≥ m.n then .error "exc:notfound" else
+      let old := m.lam.getD i 0.0
+      if !(Float.abs (v - old) > 0) then .ok tm else tm.setParam name v
+  | .full m =>
+    match parseTheta name with
+    | none => .error "exc:notfound"
+    | some (i, k) =>
+      match (m.rows[i]?).bind (·.params[k]?) with
+      | none => .error "exc:notfound"
+      | some old => if !(Float.abs (v - old) > 0) then .ok tm else tm.setParam name v
 
 /-- the parameter names of a built-in model, in the order of its parameter list -/
 def TM.names : TM → List String
@@ -678,7 +708,7 @@ def setParam (o : Obj) (t : DTables) (tm : Option TM) (name : String) (v : Float
   else
   match tm with
   | some m =>
-    match m.setParam name v with
+    match m.matchParam name v with
     | .ok m' => .ok (tablesOfTM t m') (some m')
     | .error "exc:notfound" => .notfound
     | .error e => .exc e
